@@ -696,7 +696,7 @@ func (g *Graph) EdgesImplying(guard Guard) []Edge {
 	seen := map[Edge]bool{}
 	for _, b := range g.Blocks {
 		for k := range b.Succs {
-			if g.EdgeImplies(b, k, guard) {
+			if g.EdgeImplies(b, k, guard) && !g.edgeNeverTaken(b, k) {
 				out = append(out, Edge{b, k})
 				seen[Edge{b, k}] = true
 			}
@@ -716,12 +716,23 @@ func (g *Graph) DirectEdgesImplying(guard Guard) []Edge {
 	var out []Edge
 	for _, b := range g.Blocks {
 		for k := range b.Succs {
-			if g.EdgeImplies(b, k, guard) {
+			if g.EdgeImplies(b, k, guard) && !g.edgeNeverTaken(b, k) {
 				out = append(out, Edge{b, k})
 			}
 		}
 	}
 	return out
+}
+
+// edgeNeverTaken: the edge's own condition is constant the other way (`if !flag` where the only definition of flag
+// that reaches the test is `flag := false`): no execution takes the edge, so it establishes nothing.
+func (g *Graph) edgeNeverTaken(b *cfg.Block, k int) bool {
+	if g.edgeCond(b, k) == nil {
+		return false
+	}
+	ga := g.newGuardAnalysis(GNever(), false)
+	al := ga.edgeAllowed(Edge{b, k})
+	return al != nil && bsEmpty(al)
 }
 
 // Region returns the syntactic region entered by the edge: the body of the
